@@ -208,16 +208,93 @@ def plaintext(rng, kind):
         return b"\xff\xfe\x00" + rbytes(rng, rng.randint(5, 12)) + b"\x80"
     if kind == "emptybytes":
         return b""
+    if kind == "edge":
+        return rng.choice(EDGE) if rng.random() < 0.5 else edge_text(rng)
     raise Broken(kind)
 
 
+# secrets whose edges / inside hold whitespace, control characters or case that a "helpful" normalisation would lose
+EDGE = [" lead-space", "trail-space ", "\tTab-Both\n", "inner space pw", "   ", "\n", "\t", " \u00a0 ",
+        "\u00a0nbsp-lead", "nbsp-trail\u00a0", "\u3000ideo\u3000", "editor-added\n", "dos-line\r\n", "Pass Word",
+        "MiXeD-CaSe", "UPPER-ONLY", "lower-only", "nul\x00inside", "\x00lead-nul", "trail-nul\x00", "ctl\x01\x1f\x7f",
+        "\x0bvt-ff\x0c", "\u2028line-sep", "\x85nel\x85", "  two  ", "\n\nblank-lines\n\n", "\ufeffbom-lead", "zero\u200bwidth\u200b"]
+WS_CHARS = [" ", "\t", "\n", "\r\n", "\u00a0", "\u3000", "\x00", "\x0b", "\x0c", "\x1f", "\x85", "\u2028", "\u200b", "  "]
+
+
+def edge_text(rng):
+    """a random secret with whitespace / control characters at its edges or inside, or only whitespace"""
+    r = rng.random()
+    core = rstr(rng, rng.randint(4, 9))
+    if r < 0.1:
+        return "".join(rng.choice(WS_CHARS[:6]) for _ in range(rng.randint(1, 3)))[:5]
+    if r < 0.4:
+        return rng.choice(WS_CHARS) + core
+    if r < 0.7:
+        return core + rng.choice(WS_CHARS)
+    if r < 0.85:
+        return rng.choice(WS_CHARS) + core + rng.choice(WS_CHARS)
+    i = rng.randrange(1, len(core))
+    return core[:i] + rng.choice(WS_CHARS) + core[i:]
+
+
+def variants(p):
+    """what a normalising implementation would confuse p with: all different from p"""
+    out = []
+    for q in (p.strip(), p.lstrip(), p.rstrip(), p.rstrip("\r\n"), p.lower(), p.upper(), p.swapcase(), p.casefold(), " ".join(p.split()),
+              p.replace("\x00", ""), p.strip("\x00"), p + "\n", " " + p, p + " ", p.replace("\r\n", "\n"), p.replace("\u00a0", " "),
+              p.replace("\u3000", " "), p.expandtabs(), "".join(ch for ch in p if ch.isprintable())):
+        if q != p and q not in out:
+            out.append(q)
+    return out
+
+
+_CARRIES = {}
+
+
+def carries(how, text):
+    """does a document of this format, written and parsed WITHOUT cincoconfig, give the text back unchanged?
+    (XML cannot hold most control characters and normalises \\r; measured, not remembered)"""
+    if how == "tree":
+        return True
+    key = (how, text)
+    if key not in _CARRIES:
+        try:
+            doc = make_doc(how, text)
+            if how == "json":
+                back = json.loads(doc)["pw"]
+            elif how == "yaml":
+                import yaml
+                back = yaml.load(doc.decode(), Loader=yaml.Loader)["pw"]
+            elif how == "bson":
+                import bson
+                back = bson.loads(doc)["pw"]
+            elif how == "pickle":
+                back = pickle.loads(doc)["pw"]
+            else:
+                import xml.etree.ElementTree as ET
+                back = ET.fromstring(doc).find("pw").text or ""
+            _CARRIES[key] = (back == text)
+        except Exception:  # noqa
+            _CARRIES[key] = False
+    return _CARRIES[key]
+
+
+def route(how, text):
+    """the load route to use for this text: the wanted format if it carries the text, else the tree"""
+    return how if carries(how, text) else "tree"
+
+
 KINDS = ["empty", "ascii", "unicode", "long", "bytes", "rawbytes"]
-RKINDS = ["empty", "ascii", "unicode", "bytes", "rawbytes", "emptybytes", "ascii", "unicode", "bytes"]
+RKINDS = ["empty", "ascii", "unicode", "bytes", "rawbytes", "emptybytes", "ascii", "unicode", "bytes", "edge", "edge", "edge"]
 
 
 def mutate(rng, p):
     """a secret different from p (as bytes) but close to it"""
     b = enc(p)
+    if isinstance(p, str) and rng.random() < 0.35:
+        vs = [q for q in variants(p) if enc(q) is not None]
+        if vs:
+            return rng.choice(vs)
     for _ in range(20):
         r = rng.randrange(7)
         if isinstance(p, str):
@@ -271,7 +348,7 @@ def finish(c, rng=None):
     return c
 
 
-def matrix():
+def matrix(tier="quick"):
     import random
     cases = []
     for a in range(6):
@@ -296,7 +373,7 @@ def matrix():
                 ops += [("saveload", fmt), ("challenge", p), ("challenge", q)]
             doc_p = p if isinstance(p, str) else plaintext(rng, "ascii")
             for how in ["tree"] + FORMATS:
-                ops += [("load", doc_p, how), ("challenge", doc_p)]
+                ops += [("load", doc_p, route(how, doc_p)), ("challenge", doc_p)]
             ops += [("challenge", mutate(rng, doc_p)), ("saveload", FORMATS[(a + ki) % 5]), ("challenge", doc_p)]
             if default is not None:
                 ops += [("new",), ("challenge", default if isinstance(default, str) else p), ("new",)]
@@ -339,11 +416,11 @@ def matrix():
             how = (["tree"] + FORMATS)[(a + ci) % 6]
             ops2 += [("assign", cp), ("challenge", cp), ("challenge", unicodedata.normalize("NFC", cp)), ("challenge", cp.encode()),
                      ("basic",), ("saveload", FORMATS[(a + ci) % 5]), ("challenge", cp), ("challenge", unicodedata.normalize("NFC", cp)),
-                     ("load", cp, how), ("challenge", cp), ("challenge", unicodedata.normalize("NFC", cp))]
+                     ("load", cp, route(how, cp)), ("challenge", cp), ("challenge", unicodedata.normalize("NFC", cp))]
         cases.append(finish({"alg": a, "req": False, "default": nonnfc[a % len(nonnfc)], "ops": ops2, "secrets": list(nonnfc)}))
         for ci, cp in enumerate(colons):
             how = (["tree"] + FORMATS)[(a + ci) % 6]
-            ops += [("load", cp, how), ("challenge", cp), ("challenge", cp + "x"), ("python", cp), ("assign", cp), ("challenge", cp)]
+            ops += [("load", cp, route(how, cp)), ("challenge", cp), ("challenge", cp + "x"), ("python", cp), ("assign", cp), ("challenge", cp)]
         cases.append(finish({"alg": a, "req": False, "default": colons[a % len(colons)], "ops": ops, "secrets": []}))
         for bad_default in (b"bytes-default", 5, ("a", "b"), ["x"]):
             cases.append(finish({"alg": a, "req": False, "default": bad_default, "ops": [("new",)], "secrets": []}))
@@ -351,6 +428,29 @@ def matrix():
                              "ops": [("new",), ("assign", None), ("load", None, "tree"), ("saveload", "json"), ("assign", "secret1"),
                                      ("assign", None), ("challenge", "secret1"), ("load", None, "json"), ("challenge", "secret1")],
                              "secrets": ["secret1"]}))
+    # whitespace / control characters / case at the edges and inside: every text on every route (assign, default,
+    # to_python, load by tree and by every format that carries the text unchanged); the exact text verifies, the stripped /
+    # re-cased / re-spaced variants do not
+    for ei, text in enumerate(EDGE):
+        a = ei % 6
+        vs = variants(text)
+        ops = [("new",), ("challenge", text)] + [("challenge", q) for q in vs[:2]]
+        ops += [("assign", text), ("challenge", text)] + [("challenge", q) for q in (vs if tier != "quick" else vs[:4])]
+        ops += [("python", text), ("create", text, None)]
+        for how in ["tree"] + FORMATS:
+            if carries(how, text):
+                k0 = (["tree"] + FORMATS).index(how)
+                ops += [("load", text, how), ("challenge", text)] + [("challenge", q) for q in (vs[k0:] + vs[:k0])[:(1 if tier == "quick" else 3)]]
+        ops += [("saveload", FORMATS[ei % 5]), ("challenge", text)] + [("challenge", q) for q in vs[:2]]
+        ops += [("assign", text.encode()), ("challenge", text), ("challenge", text.strip())]
+        cases.append(finish({"alg": a, "req": bool(ei % 2), "default": text, "ops": ops, "secrets": [text]}))
+        # and the other algorithms on the load route alone
+        for a2 in range(6):
+            if a2 == a or (tier == "quick" and (a2 - a) % 6 not in (1, 4)):
+                continue
+            how = route((["tree"] + FORMATS)[(ei + a2) % 6], text)
+            ops = [("new",), ("load", text, how), ("challenge", text)] + [("challenge", q) for q in vs[:3]]
+            cases.append(finish({"alg": a2, "req": False, "default": None, "ops": ops, "secrets": [text]}))
     # very long secrets that differ only far from the start (beyond any block / buffer size one might hash up to)
     for a in range(6):
         for n, asbytes in ((4096, bool(a % 2)), (65, not a % 2)):
@@ -391,7 +491,7 @@ def random_case(rng):
     if r < 0.4:
         default = None
     elif r < 0.7:
-        default = plaintext(rng, rng.choice(["ascii", "unicode", "empty"]))
+        default = plaintext(rng, rng.choice(["ascii", "unicode", "empty", "edge"]))
         secrets.append(default)
     elif r < 0.95:
         default = some_digest()
@@ -481,11 +581,15 @@ def random_case(rng):
             ops.append(("saveload", rng.choice(FORMATS)))
             ops.append(("challenge", last[0] if last[0] is not None else "nothing-stored"))
         elif k < 0.67:
-            p = plaintext(rng, rng.choice(["ascii", "unicode", "empty", "long" if rng.random() < 0.05 else "ascii"]))
+            p = plaintext(rng, rng.choice(["ascii", "unicode", "empty", "edge", "edge", "long" if rng.random() < 0.05 else "ascii"]))
             secrets.append(p)
             last[0] = p
-            ops.append(("load", p, rng.choice(["tree"] + FORMATS)))
+            ops.append(("load", p, route(rng.choice(["tree"] + FORMATS), p)))
             ops.append(("challenge", p))
+            if rng.random() < 0.6:
+                vs = [q for q in variants(p) if enc(q) is not None]
+                if vs:
+                    ops.append(("challenge", rng.choice(vs)))
         elif k < 0.75:
             kk = rng.random()
             if kk < 0.4:
@@ -530,7 +634,7 @@ def random_case(rng):
 
 def generate(rng, tier):
     _facts()
-    cases = matrix()
+    cases = matrix(tier)
     n = 260 if tier == "quick" else 6000
     for _ in range(n):
         cases.append(random_case(rng))
